@@ -711,7 +711,7 @@ func (g *gen) stmt(depth int, rets []*Type, allowReturn bool) stmt {
 	arrays := g.varsOf(func(v variable) bool { return !v.ro && v.t.Kind == KArr })
 	structs := g.varsOf(func(v variable) bool { return !v.ro && v.t.Kind == KStruct })
 	for {
-		switch g.r.Intn(14) {
+		switch g.r.Intn(15) {
 		case 0, 1: // var x T = e
 			t := g.scalarType()
 			e := g.expr(t, g.cfg.MaxDepth)
@@ -897,6 +897,40 @@ func (g *gen) stmt(depth int, rets []*Type, allowReturn bool) stmt {
 					v.E[i] = e.eval(en)
 				}
 				en.def(name, v)
+				return false
+			}}
+		case 14: // the same assignment guarded by different inner conditions in the two arms of an if/else
+			if len(assignable) == 0 || depth <= 0 || g.inLoop > 0 {
+				continue
+			}
+			v := vrt.Pick(g.r, assignable)
+			n, t := v.name, v.t
+			e1, e2 := g.leaf(t), g.leaf(t)
+			c0, c1, c2 := g.expr(Bool, g.cfg.MaxDepth), g.expr(Bool, g.cfg.MaxDepth), g.expr(Bool, g.cfg.MaxDepth)
+			withElse := g.r.Bool()
+			inner := func(c expr) []string {
+				l := []string{"\tif " + c.src + " {", "\t\t" + n + " = " + e1.src}
+				if withElse {
+					l = append(l, "\t} else {", "\t\t"+n+" = "+e2.src)
+				}
+				return append(l, "\t}")
+			}
+			lines := []string{"if " + c0.src + " {"}
+			lines = append(lines, inner(c1)...)
+			lines = append(lines, "} else {")
+			lines = append(lines, inner(c2)...)
+			lines = append(lines, "}")
+			g.feat["twin-if"] = true
+			return stmt{lines: lines, exec: func(en *env) bool {
+				c := c2
+				if c0.eval(en).I.Sign() != 0 {
+					c = c1
+				}
+				if c.eval(en).I.Sign() != 0 {
+					en.get(n).I = e1.eval(en).I
+				} else if withElse {
+					en.get(n).I = e2.eval(en).I
+				}
 				return false
 			}}
 		}
